@@ -84,6 +84,11 @@ def analyse(job):
     probs, doc = validate.validate(data, expect_encrypted=bool(enc), password=pw)
     enccls = ("enc_" + enc["strength"]) if enc else "plain"
     for rule, msg in probs:
+        if rule == "object_unreadable" and enc and "obj_streams=1" in cc and ("AES blob length" in msg or "decompressing" in msg):
+            # one defect, one signature: in an encrypted document the library writes its object streams
+            # unencrypted (and encrypts the strings of the member objects one by one instead)
+            out.append(("C03", "C03|object_stream_not_encrypted_in_encrypted_document", "%s: %s" % (c["id"], msg), wit))
+            continue
         out.append(("C03", "C03|%s|%s|%s" % (rule, cc, enccls), "%s: %s" % (c["id"], msg), wit))
     for preset in ("strict", "default"):
         o = obs.get(preset)
